@@ -144,6 +144,24 @@ impl Buf for Liar {
     }
 }
 
+/// A liar that also overrides the provided `copy_to_slice` with one that writes nothing (it only advances): a safe
+/// implementation may do that; whoever calls it must not have promised anybody that the destination is initialised.
+pub struct Lazy(pub Liar);
+impl Buf for Lazy {
+    fn remaining(&self) -> usize {
+        self.0.remaining()
+    }
+    fn chunk(&self) -> &[u8] {
+        self.0.chunk()
+    }
+    fn advance(&mut self, cnt: usize) {
+        self.0.advance(cnt)
+    }
+    fn copy_to_slice(&mut self, dst: &mut [u8]) {
+        self.0.advance(dst.len());
+    }
+}
+
 // ---- lying owner
 
 pub struct LiarOwner {
@@ -338,6 +356,78 @@ pub fn entries() -> Vec<Entry> {
             }));
             push_bytes(o, &arr);
             if let Err(e) = r {
+                std::panic::resume_unwind(e);
+            }
+        }),
+        entry!("<&mut [u8]>::put(liar) exactly-sized heap window of 8", |s, o| {
+            // the window is a whole allocation: one byte too many lands in its red zone
+            let mut v: Vec<u8> = Vec::with_capacity(8);
+            v.resize(8, 0xEE);
+            let r = catch_unwind(AssertUnwindSafe(|| {
+                let mut sl = &mut v[..];
+                sl.put(Liar::new(s));
+            }));
+            push_bytes(o, &v);
+            if let Err(e) = r {
+                std::panic::resume_unwind(e);
+            }
+        }),
+        entry!("<&mut [MaybeUninit<u8>]>::put(liar) exactly-sized heap windows of 8 and 3", |s, o| {
+            let mut first_panic = None;
+            for n in [8usize, 3] {
+                let mut v: Vec<core::mem::MaybeUninit<u8>> = Vec::with_capacity(n);
+                v.resize(n, core::mem::MaybeUninit::new(0xEE));
+                let r = catch_unwind(AssertUnwindSafe(|| {
+                    let mut sl = &mut v[..];
+                    sl.put(Liar::new(s));
+                }));
+                let init: Vec<u8> = oracle::harness(|| v.iter().map(|b| unsafe { b.assume_init() }).collect());
+                push_bytes(o, &init);
+                if let Err(e) = r {
+                    first_panic.get_or_insert(e);
+                }
+            }
+            if let Some(e) = first_panic {
+                std::panic::resume_unwind(e);
+            }
+        }),
+        entry!("<&mut [MaybeUninit<u8>]>::put_slice / put_bytes after put(liar)", |s, o| {
+            let mut v: Vec<core::mem::MaybeUninit<u8>> = Vec::with_capacity(10);
+            v.resize(10, core::mem::MaybeUninit::new(0xEE));
+            let r = catch_unwind(AssertUnwindSafe(|| {
+                let mut sl = &mut v[..];
+                sl.put(Liar::new(s).take(4));
+                sl.put_slice(&[0x51, 0x52]);
+                sl.put_bytes(0x53, 2);
+            }));
+            let init: Vec<u8> = oracle::harness(|| v.iter().map(|b| unsafe { b.assume_init() }).collect());
+            push_bytes(o, &init);
+            if let Err(e) = r {
+                std::panic::resume_unwind(e);
+            }
+        }),
+        entry!("copy_to_bytes of a Buf whose own copy_to_slice writes nothing", |s, o| {
+            let mut first_panic = None;
+            let mut run = |f: &mut dyn FnMut() -> Bytes| match catch_unwind(AssertUnwindSafe(|| f())) {
+                Ok(b) => push_bytes(o, &b),
+                Err(e) => {
+                    first_panic.get_or_insert(e);
+                }
+            };
+            run(&mut || Lazy(Liar::new(s)).copy_to_bytes(4));
+            run(&mut || Lazy(Liar::new(s)).take(5).copy_to_bytes(3));
+            run(&mut || Lazy(Liar::new(s)).chain(&[0x31u8, 0x32][..]).copy_to_bytes(7));
+            run(&mut || Buf::chain(&[0x31u8, 0x32][..], Lazy(Liar::new(s))).copy_to_bytes(5));
+            run(&mut || {
+                let mut l = Lazy(Liar::new(s));
+                let mut r = &mut l;
+                (&mut r).copy_to_bytes(2)
+            });
+            run(&mut || {
+                let mut b: Box<dyn Buf> = Box::new(Lazy(Liar::new(s)));
+                b.copy_to_bytes(6)
+            });
+            if let Some(e) = first_panic {
                 std::panic::resume_unwind(e);
             }
         }),
